@@ -30,7 +30,7 @@ def build():
                 && r->Ok_0 == self.mappings@[i].gpa_base + (vmm_va - self.mappings@[i].vmm_addr)
                 && forall|j: int| 0 <= j < i ==> !contains_va(#[trigger] self.mappings@[j], vmm_va), // [C13,C14] gpa_base + (va - user_base) of the FIRST region containing va
             r is Ok ==> is_translation(self.mappings@, vmm_va, r->Ok_0),
-            r is Err ==> forall|i: int| 0 <= i < self.mappings@.len() ==> !contains_va(#[trigger] self.mappings@[i], vmm_va), // [C13] rejected iff no region contains it""")
+            r is Err ==> forall|i: int| 0 <= i < self.mappings@.len() ==> !contains_va(#[trigger] self.mappings@[i], vmm_va), // [C13,C14] rejected iff no region contains it""")
     span2 = hnd.impl_span(r'^impl<T: VhostUserBackend> VhostUserBackendReqHandlerMut for VhostUserHandler<T>')
     sva = u.rw.strip_comments(hnd.fn_body("set_vring_addr", within=span2))
     u.scan(["C14"], "set_vring_addr_calls", sva.count(".set_queue_info(") == 1 and sva.count(".queue_used_idx()") == 1 and sva.count(".set_queue_next_used(") == 1
@@ -88,9 +88,9 @@ def build():
         ensures
             r is Ok ==> final(self).atomic_mem.view@ == old(self).atomic_mem.view@.push(RegionDesc { gpa: region.guest_phys_addr, size: region.memory_size, file: file.id@, off: region.mmap_offset, logged: final(self).atomic_mem.view@.last().logged })
                 && final(self).mappings@ == old(self).mappings@.push(AddrMapping { vmm_addr: region.user_addr, size: region.memory_size, gpa_base: region.guest_phys_addr })
-                && final(self).backend.updates@ == old(self).backend.updates@.push(final(self).atomic_mem.view@), // [C13] exactly the accepted region, backed by the passed file at mmap_offset; backend notified once
+                && final(self).backend.updates@ == old(self).backend.updates@.push(final(self).atomic_mem.view@), // [C13,C14] exactly the accepted region, backed by the passed file at mmap_offset; backend notified once
             r is Ok ==> mappings_ok(final(self).mappings@), // [C05,C13] the table invariant the translation relies on
-            r is Err ==> final(self).mappings@ == old(self).mappings@, // [C13] a failed update leaves the translation table intact
+            r is Err ==> final(self).mappings@ == old(self).mappings@, // [C13,C14] a failed update leaves the translation table intact
             r is Err ==> final(self).atomic_mem.view@ == old(self).atomic_mem.view@, // [C13:mem-intact] ... and the guest memory
             (r is Ok && old(self).atomic_mem.view@.len() > 0 && all_logged(old(self).atomic_mem.view@)) ==> all_logged(final(self).atomic_mem.view@), // [C15:log-kept] logging stays in force for all guest memory across memory-table changes""")
     u.extracted_fn(hnd, "set_mem_table", within=span2,
@@ -124,9 +124,9 @@ def build():
         ensures
             r is Ok ==> final(self).atomic_mem.view@ == table_view(ctx@, files@, ctx@.len() as int)
                 && final(self).mappings@ == table_mappings(ctx@, ctx@.len() as int)
-                && final(self).backend.updates@ == old(self).backend.updates@.push(final(self).atomic_mem.view@), // [C13] the memory consists of exactly the regions of the message, region j backed by descriptor j at its mmap_offset; the table is replaced with it; backend notified once
+                && final(self).backend.updates@ == old(self).backend.updates@.push(final(self).atomic_mem.view@), // [C13,C14] the memory consists of exactly the regions of the message, region j backed by descriptor j at its mmap_offset; the table is replaced with it; backend notified once
             r is Ok ==> mappings_ok(final(self).mappings@), // [C05,C13]
-            r is Err ==> final(self).mappings@ == old(self).mappings@, // [C13] a failed update leaves the translation table intact
+            r is Err ==> final(self).mappings@ == old(self).mappings@, // [C13,C14] a failed update leaves the translation table intact
             r is Err ==> final(self).atomic_mem.view@ == old(self).atomic_mem.view@, // [C13:mem-intact] ... and the guest memory
             (r is Ok && old(self).atomic_mem.view@.len() > 0 && all_logged(old(self).atomic_mem.view@)) ==> all_logged(final(self).atomic_mem.view@), // [C15:log-kept]""")
     u.extracted_fn(hnd, "remove_mem_region", within=span2, sig_rw=MEMSIG, body_rw=MEMRW, contract="""
@@ -135,7 +135,7 @@ def build():
                          && old(self).atomic_mem.view@[i].size == region.memory_size && final(self).atomic_mem.view@ == old(self).atomic_mem.view@.remove(i)), // [C13]
             r is Ok ==> final(self).mappings@ == old(self).mappings@.filter(|m: AddrMapping| addr_field(m, AddrField::gpa_base) != region.guest_phys_addr)
                 && final(self).backend.updates@ == old(self).backend.updates@.push(final(self).atomic_mem.view@), // [C13]
-            r is Err ==> final(self).mappings@ == old(self).mappings@, // [C13]
+            r is Err ==> final(self).mappings@ == old(self).mappings@, // [C13,C14]
             r is Err ==> final(self).atomic_mem.view@ == old(self).atomic_mem.view@, // [C13:mem-intact]""")
     
     # syntactic frame condition behind [C15:log-base-atomic]: every fallible step of set_log_base precedes the first bitmap
